@@ -94,7 +94,7 @@ def prefix_lists(rng, quick):
         ["10.0.0.0/8", "10.1.0.0/16", "10.1.2.0/24"],
         ["10.0.0.0/8", "11.0.0.0/8", "10.128.0.0/9"],
         ["255.255.255.255/32", "0.0.0.0/32"],
-        ["20.0.0.0/25", "20.0.0.128/25"], ["10.0.0.0/9", "10.128.0.0/9", "30.1.2.0/31", "30.1.2.2/31"],
+        ["20.0.0.0/25", "20.0.0.128/25"], ["10.0.0.0/16", "10.0.0.0/8"], ["10.0.0.0/8", "10.0.0.0/24", "10.0.0.0/30"], ["10.0.0.0/9", "10.128.0.0/9", "30.1.2.0/31", "30.1.2.2/31"],
         list(README_DEFAULT_PREFIXES) + ["100.64.0.0/10"],
     ]
     out = list(fixed)
@@ -106,6 +106,7 @@ def prefix_lists(rng, quick):
 def address_lists(rng, quick):
     fixed = [None, None, ["11.11.11.11"], ["12.20.0.0/30"], ["10.0.0.0/8"], list(RFC1918),
              ["11.11.11.11", "12.20.0.0/16"], ["0.0.0.0/1"], ["200.1.2.3/32", "200.1.2.2/32"],
+             ["10.0.0.0/24"], ["192.168.0.0/24", "172.16.0.0/16"], ["0.0.0.0/8", "128.0.0.0/9"], ["10.0.0.0/16", "10.0.0.0/8"],
              ["10.1.0.0/16", "10.0.0.0/8"], ["10.0.0.0/8", "10.1.0.0/16", "10.1.2.0/24"], list(RFC1918) + ["10.1.0.0/16"],
              ["192.168.128.0/17", "192.168.0.0/16", "172.20.0.0/14"], ["50.0.0.0/7", "51.2.0.0/15", "51.3.3.0/24"]]
     out = list(fixed)
